@@ -168,7 +168,18 @@ def stateless (w : List String) : Option String :=
     | .servers => some "servers"
     | .noServers => some "noservers"
     | .error c => some ("err:" ++ causeStr c)
-  | "fail" :: "l3zone" :: _ => some "unmodelled"
+  | ["fail", "l3zone", spec, _delay] => do
+    -- the result loop of Resolver.lookup + the tail of resolve, on the servers' scripted outcomes
+    let outs ← (parseCsv spec).mapM fun b =>
+      if b == "s" then some (Outcome.rcode 2) else if b == "r" then some (Outcome.rcode 5)
+      else if b == "n" then some (Outcome.rcode 4) else if b == "x" then some (Outcome.rcode 3)
+      else if b == "d" then some (Outcome.err .other) else if b == "h" || b == "f" then some Outcome.good else none
+    let res := lookupFold false outs [] 0 []
+    let cls := match res with
+      | .resp 0 => "answer"
+      | .resp 3 => "nxdomain"
+      | _ => "failure"
+    some s!"class={cls} zone={boolStr (resolveRecordsZone ⟨false, false, false, .none⟩ false false res)}"
   | "fail" :: "l3shed" :: _ => some "unmodelled"
   | ["fail", "response", kind, rd, cd, udp, dobit, codes] => do
     let rd ← parseBool rd; let cd ← parseBool cd; let udp ← udp.toNat?; let dobit ← parseBool dobit
@@ -270,13 +281,28 @@ def stateful (s : Store) (w : List String) : Option (Store × String) :=
   | ["slookupw", wire, t, c, cd, now] => do
     let wn ← parseName wire; let t ← t.toNat?; let c ← c.toNat?; let cd ← parseBool cd; let now ← parseInt now
     some (s, fmtLookup (s.lookupFailureWire H now wn t c cd))
-  | ["sget", n, t, c, cd, now, opt] => do
+  | "sget" :: n :: t :: c :: cd :: now :: opt :: tree => do
+    -- Store.GetWithContext: whatever request tree the sub-query runs in (CD, client ECS)
     let k ← parseQ [n, t, c, cd, "-"]; let now ← parseInt now; let opt ← parseBool opt
     match s.lookupFailure H now k with
     | none => some (s, "miss")
     | some _ =>
-      let req : Req := ⟨true, k.cd, if opt then some ⟨1232, true, []⟩ else none⟩
+      let ecsopt := tree == ["ecsopt"]
+      let req : Req := ⟨true, k.cd, if opt then some ⟨1232, true, []⟩ else if ecsopt then some ⟨1232, false, [8]⟩ else none⟩
       some (s, "hit " ++ fmtResp (response (some req)))
+  | "probe" :: now :: _n :: rest => do
+    let now ← parseInt now
+    let rec keys : Nat → List String → Option (List QKey)
+      | _, [] => some []
+      | 0, _ => none
+      | f + 1, n :: t :: c :: cd :: sc :: more => do
+        let k ← parseQ [n, t, c, cd, sc]
+        let ks ← keys f more
+        some (k :: ks)
+      | _, _ => none
+    let ks ← keys rest.length rest
+    let r := s.probeBatch H now ks
+    some (s, s!"leaders={r.1} hits={r.2}")
   | "sretrykey" :: n :: t :: c :: cd :: sc :: [now] => do
     let k ← parseQ [n, t, c, cd, sc]; let now ← parseInt now
     some (s, fmtRetry k (s.failureRetryKey H now k))
@@ -368,14 +394,17 @@ def step (st : State) (w : List String) : State × String :=
   | some o => (st, o)
   | none =>
     match w with
-    | ["fail", "new", size, mn, mx, en] =>
+    | "fail" :: "new" :: size :: mn :: mx :: en :: _expire =>
       match size.toInt?, parseInt mn, parseInt mx, parseBool en with
       | some size, some mn, some mx, some en =>
+        -- the cache Cache.New builds from the configuration (independent of `expire`)
+        let b := cacheNewCfg size mn mx
+        let built := s!" cache={b.initial}/{b.max}"
         match newCfg size mn mx with
-        | .ok c => ({ store := some ⟨!en, c, []⟩ }, s!"ok {c.initial} {c.max}")
+        | .ok c => ({ store := some ⟨!en, c, []⟩ }, s!"ok {c.initial} {c.max}" ++ built)
         | .error e =>
           ({ store := none }, "err=" ++ (match e with
-            | .size => "size" | .initial => "initial" | .max => "max" | .ceiling => "ceiling"))
+            | .size => "size" | .initial => "initial" | .max => "max" | .ceiling => "ceiling") ++ built)
       | _, _, _, _ => (st, "bad-op")
     | "fail" :: rest =>
       match st.store with
